@@ -102,6 +102,7 @@ class NetWorld(World):
                 "reload": r.choice([0, 0, 0.03, 0.1]), "fault_rate": r.choice([0, 0, 0.2]),
                 "grid": r.choice([2, 3, 4]), "step": r.choice([10.0, 25.0, 7.5]),
                 "vertical_exact": r.choice([0, 0, 0.02]), "subnet": r.choice([0, 0.03, 0.1]),
+                "int_ids": (not road) and r.random() < 0.3,
                 "alt": r.choice([0.0, 0.0, 35.5]), "prep_cut": r.choice([None, None, 3.0, 10.0]),
                 # hub mode: few nodes, many parallel edges whose weights decrease in insertion order
                 # (many decrease-key operations and outdated entries in the priority queue)
@@ -251,7 +252,8 @@ class NetWorld(World):
     def _g_add_edge(self, r, s, m):
         cfg = self.cfg
         self.ecount += 1
-        eid = "e%d" % self.ecount
+        ints = cfg.get("int_ids") and not cfg["road"]      # integer identifiers, 0 included
+        eid = (self.ecount - 1) if ints else "e%d" % self.ecount
         st = {"op": "add_edge", "s": s, "id": eid}
         if cfg["road"]:
             g, step = cfg["grid"], cfg["step"]
@@ -278,8 +280,9 @@ class NetWorld(World):
                        "o": r.choice([0, 0, 0, 1, -1]), "abs": True})
             return st
         nn = cfg["max_nodes"]
-        a = "n%d" % r.randrange(nn)
-        b = a if r.random() < cfg["loops"] else "n%d" % r.randrange(nn)
+        nid = (lambda k: k) if ints else (lambda k: "n%d" % k)
+        a = nid(r.randrange(nn))
+        b = a if r.random() < cfg["loops"] else nid(r.randrange(nn))
         w = 0 if r.random() < cfg["zero_w"] else r.choice([0.5, 1, 1, 2, 3, 4, 0.25])
         if cfg.get("hub"):
             if r.random() < 0.6 and m["edges"]:
@@ -665,6 +668,8 @@ class NetWorld(World):
             raise Skip()
         if any(len(e["pts"]) == 2 and e["pts"][0] == e["pts"][1] for e in m["edges"]):
             raise Skip()
+        if any(not isinstance(e["id"], str) for e in m["edges"]):
+            raise Skip()            # a file stores identifiers as text: integer identifiers do not survive by design
         path = "/sim/net%d.csv" % st.get("s", 0)
         self.fs.plan.arm(st.get("fault"))
         if st.get("fault"):
